@@ -1,0 +1,40 @@
+//go:build verif
+
+package document
+
+// Accessors used by the verification harness of property C14 (build tag "verif").
+// Nothing here is compiled into normal builds.
+
+// VerifC14Bookmark mirrors the unexported bookmarkData.
+type VerifC14Bookmark struct {
+	Label string
+	Open  bool
+	X, Y  fl
+	Level int
+}
+
+// VerifC14NewPage builds a Page carrying only link data (no page box): enough for
+// resolveLinks and makeBookmarkTree.
+func VerifC14NewPage(anchorNames []string, anchorPos [][2]fl, links []Link, bookmarks []VerifC14Bookmark) Page {
+	p := Page{anchors: anchors{}, links: links}
+	for i, n := range anchorNames {
+		p.anchors[n] = anchorPos[i]
+	}
+	for _, b := range bookmarks {
+		p.bookmarks = append(p.bookmarks, bookmarkData{label: b.Label, open: b.Open, position: [2]fl{b.X, b.Y}, level: b.Level})
+	}
+	return p
+}
+
+// VerifC14PageData returns what newPage gathered for the page.
+func (p Page) VerifC14PageData() (anchorsOut map[string][2]fl, links []Link, bookmarks []VerifC14Bookmark) {
+	anchorsOut = map[string][2]fl{}
+	for k, v := range p.anchors {
+		anchorsOut[k] = v
+	}
+	links = append(links, p.links...)
+	for _, b := range p.bookmarks {
+		bookmarks = append(bookmarks, VerifC14Bookmark{Label: b.label, Open: b.open, X: b.position[0], Y: b.position[1], Level: b.level})
+	}
+	return
+}
